@@ -14,18 +14,51 @@
 
 struct Val { int x; Val() : x(77) {} };
 
+template<typename A, typename B> struct IsSame { enum { v = 0 }; };
+template<typename A> struct IsSame<A, A> { enum { v = 1 }; };
+
 // ---- keys ---------------------------------------------------------------------------------
+// Key types: i = int32, l = int64, u = uint32, p = const void* (hash = address >> 3), s = String.
+// A String key is built in place, and the SAME key text is presented through differently stored String objects
+// from one operation to the next (the storage is no part of the key: operator== compares length + bytes):
+//   0 heap copy   1 slice attached inside a larger buffer, preceded by 'X', followed by NUL
+//   2 default-constructed String for the empty key (shared emptyData), heap copy otherwise
+//   3 attached slice preceded by 'X' and followed by 'Y' (operator const char*() then detaches it on first use)
+static unsigned g_store = 0;            // reset per case: the storage used is a function of the case text
+static char* g_keybuf = 0;
 template<typename K> struct KeyT;
 template<> struct KeyT<int32> {
-  static int32 parse(const char* s) { return (int32)atoll(s); }
+  static void parse(int32& k, const char* s) { k = (int32)atoll(s); }
   static void print(const int32& k) { printf("%d", (int)k); }
 };
 template<> struct KeyT<int64> {
-  static int64 parse(const char* s) { return (int64)atoll(s); }
+  static void parse(int64& k, const char* s) { k = (int64)atoll(s); }
   static void print(const int64& k) { printf("%lld", (long long)k); }
 };
+template<> struct KeyT<uint32> {
+  static void parse(uint32& k, const char* s) { k = (uint32)strtoull(s, 0, 10); }
+  static void print(const uint32& k) { printf("%lu", (unsigned long)k); }
+};
+template<> struct KeyT<const void*> {
+  static void parse(const void*& k, const char* s) { k = (const void*)(usize)strtoull(s, 0, 10); }
+  static void print(const void* const& k) { printf("%llu", (unsigned long long)(usize)k); }
+};
 template<> struct KeyT<String> {
-  static String parse(const char* s) { size_t n; unsigned char* b = vh::unhex(s, n); String r((const char*)b, n); free(b); return r; }
+  static void parse(String& r, const char* s)
+  {
+    size_t n; unsigned char* b = vh::unhex(s, n);
+    unsigned mode = g_store++ % 4;
+    free(g_keybuf); g_keybuf = 0;
+    if(mode == 0) r = String((const char*)b, n);
+    else if(mode == 2) { if(n) r = String((const char*)b, n); else r = String(); }
+    else {
+      g_keybuf = (char*)malloc(n + 2);
+      g_keybuf[0] = 'X'; memcpy(g_keybuf + 1, b, n);
+      g_keybuf[n + 1] = mode == 1 ? 0 : 'Y';
+      r.attach(g_keybuf + 1, n);
+    }
+    free(b);
+  }
   static void print(const String& k) { vh::puthex((const unsigned char*)(const char*)k, k.length()); }
 };
 
@@ -151,7 +184,27 @@ template<typename K, int KIND> struct Runner
     if constexpr(KIND == KSET) printf("-"); else printf("v=%ld", valOf(it));
   }
 
-  // returns false when the op is unknown
+  static void constFrontBack(Tab& a, bool f)
+  {
+    const Tab& ca = a;
+    if constexpr(KIND == KSET) {
+      const K& r = f ? ca.front() : ca.back();
+      It it = f ? a.begin() : at(a, (long)a.size() - 1);
+      if(&r != &*it) printf(" CONST!");
+    } else {
+#ifndef C02_CONST_ALL
+      if constexpr(KIND == KPOOL || IsSame<K, String>::v) return;
+      else
+#endif
+      {
+        const void* viaConst;
+        if(f) { const auto& r = ca.front(); viaConst = &r; } else { const auto& r = ca.back(); viaConst = &r; }
+        const void* direct = f ? (const void*)&a.front() : (const void*)&a.back();
+        if(viaConst != direct) printf(" CONST!");
+      }
+    }
+  }
+
   static void exec(vh::Tok& t)
   {
     const char* o = t.v[0];
@@ -165,33 +218,33 @@ template<typename K, int KIND> struct Runner
     } else if(!strcmp(o, "newd")) {
       delete v[x]; v[x] = new Tab(); printf("-");
     } else if(!strcmp(o, "find")) {
-      K k = KeyT<K>::parse(t.v[2]);
+      K k; KeyT<K>::parse(k, t.v[2]);
       putIter(a, a.find(k));
     } else if(!strcmp(o, "has")) {
-      K k = KeyT<K>::parse(t.v[2]);
+      K k; KeyT<K>::parse(k, t.v[2]);
       printf(a.contains(k) ? "b1" : "b0");
     } else if(!strcmp(o, "ins")) {
       long pos = atol(t.v[2]);
-      K k = KeyT<K>::parse(t.v[3]);
+      K k; KeyT<K>::parse(k, t.v[3]);
       int val = atoi(t.v[4]);
       if(pos < 0 || (usize)pos > a.size()) { printf("pre"); return; }
       It p = at(a, pos);
       if constexpr(KIND == KMAP) putIter(a, a.insert(p, k, val));
       else putIter(a, a.insert(p, k));
     } else if(!strcmp(o, "app")) {
-      K k = KeyT<K>::parse(t.v[2]);
+      K k; KeyT<K>::parse(k, t.v[2]);
       int val = atoi(t.v[3]);
       if constexpr(KIND == KMAP) { int& r = a.append(k, val); printf("v=%d", r); }
       else if constexpr(KIND == KSET) { a.append(k); printf("-"); }
       else { Val& r = a.append(k); printf("v=%d", r.x); }
     } else if(!strcmp(o, "pre")) {
-      K k = KeyT<K>::parse(t.v[2]);
+      K k; KeyT<K>::parse(k, t.v[2]);
       int val = atoi(t.v[3]);
       if constexpr(KIND == KMAP) { int& r = a.prepend(k, val); printf("v=%d", r); }
       else if constexpr(KIND == KSET) { a.prepend(k); printf("-"); }
       else printf("pre");
     } else if(!strcmp(o, "rmk")) {
-      K k = KeyT<K>::parse(t.v[2]);
+      K k; KeyT<K>::parse(k, t.v[2]);
       a.remove(k); printf("-");
     } else if(!strcmp(o, "rmi")) {
       long r = atol(t.v[2]);
@@ -211,6 +264,12 @@ template<typename K, int KIND> struct Runner
       putIter(a, a.removeFront());
     } else if(!strcmp(o, "rmb")) {
       if(a.isEmpty()) { printf("pre"); return; }
+#ifndef C02_PTR_REMOVEBACK
+      // removeBack() { return remove(_end.item->prev); } is not instantiable for (const) void* keys while the Item*
+      // argument prefers remove(const T& key) over remove(const Iterator&) (checks/C02.py probes that)
+      if constexpr(IsSame<K, const void*>::v) putIter(a, a.remove(at(a, (long)a.size() - 1)));
+      else
+#endif
       putIter(a, a.removeBack());
     } else if(!strcmp(o, "clear")) {
       a.clear(); printf("-");
@@ -220,8 +279,13 @@ template<typename K, int KIND> struct Runner
       if constexpr(KIND == KMAP) printf("v=%d", f ? a.front() : a.back());
       else if constexpr(KIND == KSET) { printf("k="); KeyT<K>::print(f ? a.front() : a.back()); }
       else printf("v=%d", f ? a.front().x : a.back().x);
+      // the const overloads, through a const reference: they must denote the very same object as the
+      // non-const ones (HashSet has only the const pair: compared with the item the iterator stands on).
+      // HashMap<String,int> and PoolMap<K,Val> are only driven with C02_CONST_ALL: their const overloads
+      // are not instantiable while they are declared with the key type (checks/C02.py probes that).
+      constFrontBack(a, f);
     } else if(!strcmp(o, "setv")) {
-      K k = KeyT<K>::parse(t.v[2]);
+      K k; KeyT<K>::parse(k, t.v[2]);
       int val = atoi(t.v[3]);
       if constexpr(KIND == KSET) printf("pre");
       else {
@@ -282,6 +346,8 @@ template<int KIND> static void selectKey(vh::Tok& t)
   switch(t.v[3][0]) {
   case 'i': select<int32, KIND>(t); break;
   case 'l': select<int64, KIND>(t); break;
+  case 'u': select<uint32, KIND>(t); break;
+  case 'p': select<const void*, KIND>(t); break;
   default: select<String, KIND>(t); break;
   }
 }
@@ -290,6 +356,7 @@ static void begin(long, vh::Tok& t)
 {
   if(cur_reset) cur_reset();
   cur_op = 0; cur_reset = 0;
+  g_store = 0;
   if(t.n < 5) return;
   if(!strcmp(t.v[2], "hm")) selectKey<KMAP>(t);
   else if(!strcmp(t.v[2], "hs")) selectKey<KSET>(t);
